@@ -14,9 +14,14 @@ package vsched
 
 import (
 	"fmt"
+	"os"
 	"runtime"
 	"runtime/debug"
+	"strconv"
+	"strings"
 	"sync"
+	"sync/atomic"
+	"time"
 )
 
 // Strategy decides every nondeterministic choice of a run.
@@ -52,7 +57,7 @@ type Decision struct {
 }
 
 type Outcome struct {
-	Status string     `json:"status"` // done | deadlock | budget | panic
+	Status string     `json:"status"` // done | deadlock | budget | panic | stalled (harness limit, see Stalled)
 	Detail string     `json:"detail,omitempty"`
 	Steps  int        `json:"steps"`
 	Trace  []Decision `json:"trace,omitempty"`
@@ -64,6 +69,7 @@ type Sched struct {
 	cur     *Actor
 	strat   Strategy
 	steps   int
+	ticks   int64 // scheduler calls (progress, read by the watchdog)
 	budget  int
 	outcome chan Outcome
 	over    bool
@@ -86,19 +92,106 @@ func Cur() *Sched {
 	return cur
 }
 
+// Stalled reports whether controlled execution was given up in this process: an actor blocked in a
+// primitive the shims do not model (a channel operation, a lock of a package that was not redirected).
+// Exactly one actor runs at a time, so nobody could ever wake it: the run - and every later one, the
+// code being the same - ends with status "stalled".  That is a limit of the harness, not a fact
+// about the code; drivers do not record such runs and the checks fall back to free runs.
+func Stalled() bool { return stalledLatch.Load() }
+
+var stalledLatch atomic.Bool
+
+// blockedKinds are the goroutine states (runtime.Stack) of an actor that waits for another goroutine.
+var blockedKinds = []string{"chan receive", "chan send", "select", "sync.Mutex.Lock", "sync.RWMutex", "sync.Cond.Wait", "semacquire", "sync.WaitGroup.Wait"}
+
+func stallAfter() time.Duration {
+	if v, err := strconv.Atoi(os.Getenv("VERIF_STALL_MS")); err == nil && v > 0 {
+		return time.Duration(v) * time.Millisecond
+	}
+	return 8 * time.Second
+}
+
+// watch ends the run as "stalled" when no scheduler call was made for stallAfter() and the running
+// actor's goroutine sits in one of blockedKinds.
+func (s *Sched) watch(stop chan struct{}) {
+	limit := stallAfter()
+	last, since := int64(-1), time.Now()
+	for {
+		select {
+		case <-stop:
+			return
+		case <-time.After(limit / 16):
+		}
+		t := atomic.LoadInt64(&s.ticks)
+		if t != last {
+			last, since = t, time.Now()
+			continue
+		}
+		if time.Since(since) < limit {
+			continue
+		}
+		s.mu.Lock()
+		a := s.cur
+		s.mu.Unlock()
+		if a == nil {
+			continue
+		}
+		buf := make([]byte, 1<<20)
+		buf = buf[:runtime.Stack(buf, true)]
+		head := fmt.Sprintf("goroutine %d [", a.goid)
+		i := strings.Index(string(buf), head)
+		if i < 0 {
+			continue
+		}
+		rest := string(buf[i+len(head):])
+		state := rest
+		if j := strings.IndexAny(rest, "],"); j >= 0 {
+			state = rest[:j]
+		}
+		blocked := false
+		for _, k := range blockedKinds {
+			if strings.HasPrefix(state, k) {
+				blocked = true
+			}
+		}
+		if !blocked {
+			since = time.Now() // busy (system call, computation): keep waiting
+			continue
+		}
+		frames := rest
+		if j := strings.Index(rest, "\n\n"); j >= 0 {
+			frames = rest[:j]
+		}
+		if len(frames) > 1200 {
+			frames = frames[:1200]
+		}
+		stalledLatch.Store(true)
+		s.mu.Lock()
+		s.finish("stalled", fmt.Sprintf("actor %s blocked outside the scheduler's primitives [%s", a.Name, frames))
+		s.mu.Unlock()
+		return
+	}
+}
+
 // Run executes main as actor "main" under strat and returns how the run ended.
 // budget bounds the number of scheduling decisions (0 = 100000).
 func Run(strat Strategy, budget int, main func()) Outcome {
 	if budget <= 0 {
 		budget = 100000
 	}
+	if stalledLatch.Load() {
+		return Outcome{Status: "stalled", Detail: "controlled execution was given up after an earlier stalled run"}
+	}
 	s := &Sched{strat: strat, budget: budget, outcome: make(chan Outcome, 1)}
 	gmu.Lock()
 	cur = s
 	gmu.Unlock()
+	stop := make(chan struct{})
+	go s.watch(stop)
 	m := s.spawn("main", main, nil)
 	s.resume(m) // starting the run is not a scheduling decision
 	o := <-s.outcome
+	close(stop)
 	gmu.Lock()
 	if cur == s {
 		cur = nil
@@ -157,6 +250,7 @@ func (s *Sched) Current() *Actor {
 }
 
 func (s *Sched) spawn(name string, fn func(), parent *Actor) *Actor {
+	atomic.AddInt64(&s.ticks, 1)
 	s.mu.Lock()
 	a := &Actor{ID: len(s.actors), Name: name, wake: make(chan struct{}, 1), Op: "start", returnTo: parent}
 	if name == "" {
@@ -215,6 +309,7 @@ func (s *Sched) Go(name string, fn func()) {
 }
 
 func (s *Sched) resume(a *Actor) {
+	atomic.AddInt64(&s.ticks, 1)
 	s.mu.Lock()
 	s.cur = a
 	a.enabled = nil
@@ -224,6 +319,7 @@ func (s *Sched) resume(a *Actor) {
 
 // Point parks the calling actor until the strategy picks it and enabled() holds.
 func (s *Sched) Point(op, arg string, enabled func() bool) {
+	atomic.AddInt64(&s.ticks, 1)
 	s.mu.Lock()
 	a := s.cur
 	if a == nil {
@@ -267,6 +363,7 @@ func (s *Sched) Freeze() {
 }
 
 func (s *Sched) schedule(self *Actor) {
+	atomic.AddInt64(&s.ticks, 1)
 	s.mu.Lock()
 	if s.over {
 		s.mu.Unlock()
